@@ -218,6 +218,20 @@ Proof.
     destruct (test_pos bits w mx cur pos) as [b| | |]; cbn [rbind]; try contradiction.
     + rewrite H. cbn [fst snd]. auto.
     + now rewrite H.
+  - (* ORefCopySelf *) pose proof (test_pos_spec cur src Hc) as H.
+    destruct (test_pos bits w mx cur src) as [b| | |]; cbn [rbind]; try contradiction.
+    + rewrite H. apply Hset.
+    + now rewrite H.
+  - (* OAndSelf *) split; [split; [apply (wf_zip bits k Hbits N.land andb); auto using tb_land|exact Ho]|].
+    cbn [fst snd]. unfold and_words, s_and. now rewrite (zip_spec N.land andb) by auto using tb_land.
+  - (* OOrSelf *) split; [split; [apply (wf_zip bits k Hbits N.lor orb); auto using tb_lor|exact Ho]|].
+    cbn [fst snd]. unfold or_words, s_or. now rewrite (zip_spec N.lor orb) by auto using tb_lor.
+  - (* OXorSelf *) split; [split; [apply (wf_zip bits k Hbits N.lxor xorb); auto using tb_lxor|exact Ho]|].
+    cbn [fst snd]. unfold xor_words, s_xor. now rewrite (zip_spec N.lxor xorb) by auto using tb_lxor.
+  - (* OCStr *) pose proof (of_cstring_spec bits k Hbits str counted zero one) as H.
+    destruct (of_cstring bits w mx m64 str counted zero one) as [c| | |]; cbn [rbind]; try contradiction.
+    + destruct H as (Hwf' & ->). cbn [fst snd]. auto.
+    + destruct H as [-> | ->]; reflexivity.
 Qed.
 
 (** ** what is printed after a step *)
